@@ -4,6 +4,8 @@ CONSTANTS
   KS = {"r_class", "r_id", "r_attr", "r_pseudo", "r_desc", "d_ident", "d_str", "d_num", "d_hex", "d_urlq", "d_url", "d_call", "media", "supports", "fontface", "keyframes", "comment"}
   CS = {"ascii", "latin1", "latin1sym", "bmp", "bmpsym", "astral", "astralsym", "private", "privastral", "combining", "dquote", "squote", "quotes2", "backslash", "control", "newline", "tab", "space"}
   SH = {"solo", "mid", "dig", "two"}
+  CT = {}
+  FN = {}
 INVARIANT Generated
 INVARIANT EmitVec
 CHECK_DEADLOCK FALSE
